@@ -1,9 +1,90 @@
-import SpyneModel.Prim
+/-
+  C08 — primitive text forms are lossless and lie in the XSD lexical space.
+  Property theorems only; every theorem is about the model instantiated with the facts
+  regenerated from /repo (`Generated.facts08`), side conditions discharged by `decide`.
+-/
+import Proofs.Prim
 import SpyneModel.Generated.Facts08
 namespace SpyneModel.Props.C08
 open SpyneModel SpyneModel.Generated
 
+/-! ### integers -/
+
+/-- every integer whose canonical text fits the length guard is read back exactly -/
+theorem int_roundtrip_unbounded (i : Int)
+    (h : (intToText i).length ≤ facts08.intMaxStrLen .unbounded) :
+    intFromText facts08 .unbounded (intToText i) = .ok i :=
+  intFromText_intToText facts08 .unbounded i h
+
+/-- every value of every fixed-width integer type is read back exactly
+    (the length guard `max_str_len` of /repo leaves room for every canonical literal) -/
+theorem int_roundtrip_bounded (k : IntKind) (lo hi i : Int)
+    (hlo : k.lo = some lo) (hhi : k.hi = some hi) (h1 : lo ≤ i) (h2 : i ≤ hi) :
+    intFromText facts08 k (intToText i) = .ok i := by
+  have hlen := intText_length_bounded k i lo hi hlo hhi h1 h2
+  have hmsl : k.needLen ≤ facts08.intMaxStrLen k := by cases k <;> decide
+  exact intFromText_intToText facts08 k i (Nat.le_trans hlen hmsl)
+
+example : intFromText facts08 .i8 (intToText (-128)) = .ok (-128) := by decide +kernel
+example : intFromText facts08 .u8 (intToText 255) = .ok 255 := by decide +kernel
+
+/-! ### booleans -/
+
 theorem bool_roundtrip (b : Bool) : boolFromText facts08 (boolToText b) = .ok b := by
   cases b <;> decide
+
+/-- the four literals of xs:boolean are read as their values -/
+theorem bool_literals :
+    boolFromText facts08 "true".toList = .ok true ∧ boolFromText facts08 "1".toList = .ok true ∧
+    boolFromText facts08 "false".toList = .ok false ∧ boolFromText facts08 "0".toList = .ok false := by
+  decide
+
+/-- text that is not a boolean literal is rejected, not coerced -/
+theorem bool_nonliteral_rejected (s : Text)
+    (h1 : s.map asciiLower ≠ "true".toList) (h2 : s.map asciiLower ≠ "1".toList)
+    (h3 : s.map asciiLower ≠ "false".toList) (h4 : s.map asciiLower ≠ "0".toList) :
+    boolFromText facts08 s = .fault := by
+  simp only [boolFromText, h1, h2, h3, h4, facts08, decide_false, Bool.or_self, Bool.false_eq_true, if_false]
+
+/-! ### UTC offsets -/
+
+/-- all offsets a datetime can carry (a fortiori the 1681 offsets of XSD) survive the text form -/
+theorem offset_roundtrip (m : Int) (h1 : -1440 < m) (h2 : m < 1440) (rest : Text) :
+    parseOffset facts08 (fmtOffset m ++ rest) = some (m, rest) :=
+  parseOffset_fmtOffset facts08 (by decide) m (by omega) rest
+
+/-- every `[+-]HH:MM` literal is read as sign·(60·HH + MM) -/
+theorem offset_literal (neg : Bool) (hh mm : Nat) :
+    offsetValue facts08 neg hh mm = (if neg then -((60 * hh + mm : Nat) : Int) else ((60 * hh + mm : Nat) : Int)) := by
+  simp [offsetValue, facts08]; split <;> omega
+
+example : parseOffset facts08 "-04:49".toList = some (-289, []) := by decide
+
+/-! ### dates, times, datetimes -/
+
+theorem date_roundtrip (x : Date) (h : x.valid = true) : dateFromText facts08 (isoDate x) = .ok x :=
+  dateFromText_isoDate facts08 x h
+
+theorem time_roundtrip (t : Time) (h : t.valid = true) : timeFromText facts08 (isoTime t) = .ok t :=
+  timeFromText_isoTime facts08 t h
+
+/-- any calendar date 0001..9999, any time of day to the microsecond, naive or with any
+    whole-minute UTC offset strictly inside ±24 h -/
+theorem datetime_roundtrip (x : DateTime) (h : x.valid = true) :
+    dateTimeFromText facts08 (isoDateTime x) = .ok x :=
+  dateTimeFromText_isoDateTime facts08 (by decide) x h
+
+example : (DateTime.mk ⟨2024, 2, 29⟩ ⟨23, 59, 59, 5⟩ (some (-289))).valid = true := by decide
+example : isoDateTime (DateTime.mk ⟨2024, 2, 29⟩ ⟨23, 59, 59, 5⟩ (some (-289))) = "2024-02-29T23:59:59.000005-04:49".toList := by decide
+
+/-! ### durations -/
+
+/-- every `timedelta` (min … max) survives, to the microsecond -/
+theorem duration_roundtrip (us : Int) (hlo : -86399999913600000000 ≤ us) (hhi : us ≤ 86399999999999999999) :
+    durFromText facts08 (durToText facts08 us) = .ok us :=
+  durFromText_durToText facts08 (by decide) (by decide) us hlo hhi
+
+example : durToText facts08 5 = "PT0.000005S".toList := by decide +kernel
+example : durFromText facts08 "-P1DT0.5S".toList = .ok (-86400500000) := by decide +kernel
 
 end SpyneModel.Props.C08
